@@ -254,6 +254,10 @@ impl<G: AffineRepr> InnerProductProof<G> {
         ProofError,
     > {
         let lg_n = self.L_vec.len();
+        if self.R_vec.len() != lg_n {
+            // every round contributes one L and one R point; anything else is malformed
+            return Err(ProofError::VerificationError);
+        }
         if lg_n >= 32 {
             // 4 billion multiplications should be enough for anyone
             // and this check prevents overflow in 1<<lg_n below.
